@@ -21,7 +21,7 @@ func init() {
 	})
 	register(&propDef{
 		id:      "C06",
-		explain: "Structural necessary condition of 'cookie setters cannot inject attributes or header lines': every value stored into the byte-slice fields of Cookie, and every key/value stored into the request cookie list of RequestHeader, is clean for both CR/LF and ';' on every way it can be produced (constants, formatter results, results of the two neutralisers or of helpers applying them on every path, clean arguments at every call site of unexported helpers); a value that passes a decoding/normalising step after the neutraliser is not clean. Exported parameters are the sources. Not decided: round-trip equality, attribute combinations, expiry precision; the parse side (wire bytes) is outside this rule.",
+		explain: "Structural necessary condition of 'cookie setters cannot inject attributes or header lines': every value stored into the byte-slice fields of Cookie, and every key/value stored into the request cookie list of RequestHeader, is clean for both CR/LF and ';' on every way it can be produced (constants, formatter results, results of the two neutralisers or of helpers applying them on every path, clean arguments at every call site of unexported helpers); a value that passes a decoding/normalising step after the neutraliser is not clean. Exported parameters are the sources. (R-out) the cookie scanners assign every out-parameter on every path that reports a pair; (R-scratch) no function uses the old content or length of a scratch buffer (bufK / bufV), so a serialised attribute - the formatted expiry date - is always computed from the attribute as it is now. Not decided: round-trip equality, attribute combinations, expiry precision; the parse side (wire bytes) is outside the taint rule.",
 		run:     func(p *Prog, r *Report) { runTaintProp(p, r, "C06") },
 	})
 }
@@ -201,6 +201,9 @@ func runTaintProp(p *Prog, r *Report, prop string) {
 	}
 	if prop == "C06" {
 		scannerOutParams(p, r)
+		// what a Cookie serialises is computed from its attributes at that moment: the scratch buffers it formats
+		// dates and keys into are never used as a cache of an earlier formatting
+		scratchPremiseRule(p, r, "R-scratch")
 	}
 }
 
